@@ -23,6 +23,7 @@ import (
 	"errors"
 	"fmt"
 	"regexp"
+	"sort"
 	"strconv"
 	"strings"
 	"time"
@@ -392,8 +393,17 @@ func GetUniqueTraceIds(pipeSearchResponseOuter *segstructs.PipeSearchResponseOut
 		endIndex = totalTracesIds
 	}
 
+	// Every page is a query of its own and the group by returns its buckets in
+	// a different order each time: order them by trace id, so that the pages are
+	// consecutive pieces of one list.
+	buckets := make([]*segstructs.BucketHolder, len(pipeSearchResponseOuter.MeasureResults))
+	copy(buckets, pipeSearchResponseOuter.MeasureResults)
+	sort.SliceStable(buckets, func(i, j int) bool {
+		return strings.Join(buckets[i].GroupByValues, ",") < strings.Join(buckets[j].GroupByValues, ",")
+	})
+
 	traceIds := make([]string, 0)
-	for _, bucket := range pipeSearchResponseOuter.MeasureResults[(page-1)*TRACE_PAGE_LIMIT : endIndex] {
+	for _, bucket := range buckets[(page-1)*TRACE_PAGE_LIMIT : endIndex] {
 		if len(bucket.GroupByValues) == 1 {
 			traceIds = append(traceIds, bucket.GroupByValues[0])
 		}
